@@ -1,0 +1,119 @@
+//go:build verif
+
+// verif_hooks_lts.go: accessors used by the schedule-driven checks of /verif
+// (policy drain-and-swap, connection lifecycle). Compiled only with -tags verif;
+// adds no behaviour to the package.
+package absnfs
+
+import (
+	"bytes"
+	"io"
+	"log"
+	"net"
+	"sync/atomic"
+)
+
+// VerifLTSHandler builds the dispatch layer around n without opening a listener,
+// exactly as the package's own tests do.
+func VerifLTSHandler(n *AbsfsNFS) *NFSProcedureHandler {
+	srv := &Server{
+		handler:     n,
+		options:     ServerOptions{},
+		logger:      log.New(io.Discard, "", 0),
+		activeConns: make(map[net.Conn]*connectionState),
+	}
+	return &NFSProcedureHandler{server: srv}
+}
+
+// VerifLTSCall runs HandleCall for one call with an AUTH_NONE credential coming
+// from ip:port. It returns the reply (nil on error) and the error.
+func (h *NFSProcedureHandler) VerifLTSCall(prog, vers, proc uint32, body []byte, ip string, port int) (*RPCReply, error) {
+	call := &RPCCall{
+		Header:     RPCMsgHeader{Xid: 1, MsgType: RPC_CALL, RPCVersion: 2, Program: prog, Version: vers, Procedure: proc},
+		Credential: RPCCredential{Flavor: AUTH_NONE, Body: []byte{}},
+		Verifier:   RPCVerifier{Flavor: AUTH_NONE, Body: []byte{}},
+	}
+	authCtx := &AuthContext{ClientIP: ip, ClientPort: port, Credential: &call.Credential}
+	return h.HandleCall(call, bytes.NewReader(body), authCtx)
+}
+
+// VerifLTSReplyBytes returns the procedure-specific result bytes of a reply.
+func VerifLTSReplyBytes(r *RPCReply) []byte {
+	if r == nil {
+		return nil
+	}
+	if b, ok := r.Data.([]byte); ok {
+		return b
+	}
+	return nil
+}
+
+// VerifLTSPolicy returns the live policy pointer.
+func (n *AbsfsNFS) VerifLTSPolicy() *PolicyOptions { return n.policy.Load() }
+
+// VerifLTSPolicyDraining reports whether a writer is pending on or holding policyRWMu
+// (a TryRLock probe, released at once).
+func (n *AbsfsNFS) VerifLTSPolicyDraining() bool {
+	if n.policyRWMu.TryRLock() {
+		n.policyRWMu.RUnlock()
+		return false
+	}
+	return true
+}
+
+// VerifLTSPolicyIdle reports whether policyRWMu has neither readers nor a writer
+// (a TryLock probe, released at once).
+func (n *AbsfsNFS) VerifLTSPolicyIdle() bool {
+	if n.policyRWMu.TryLock() {
+		n.policyRWMu.Unlock()
+		return true
+	}
+	return false
+}
+
+// VerifLTSRateLimiter returns the limiter in force (nil when disabled).
+func (n *AbsfsNFS) VerifLTSRateLimiter() *RateLimiter {
+	n.mu.RLock()
+	defer n.mu.RUnlock()
+	return n.rateLimiter
+}
+
+// VerifLTSHandleFor allocates (or returns) the file handle of a path.
+func (n *AbsfsNFS) VerifLTSHandleFor(path string) (uint64, error) {
+	node, err := n.Lookup(path)
+	if err != nil {
+		return 0, err
+	}
+	return n.fileMap.Allocate(node), nil
+}
+
+// VerifLTSCounts returns the number of file handles, attribute-cache entries and
+// directory-cache entries (-1 when the directory cache is disabled).
+func (n *AbsfsNFS) VerifLTSCounts() (handles, attr, dir int) {
+	handles, attr, dir = n.fileMap.Count(), 0, -1
+	if n.attrCache != nil {
+		attr = n.attrCache.Size()
+	}
+	if n.dirCache != nil {
+		dir = n.dirCache.Size()
+	}
+	return
+}
+
+// VerifLTSExportServer returns the Server created by Export (nil if none).
+func (n *AbsfsNFS) VerifLTSExportServer() *Server { return n.exportServer }
+
+// VerifLTSPoolRunning reports whether the worker pool is running.
+func (n *AbsfsNFS) VerifLTSPoolRunning() bool {
+	if n.workerPool == nil {
+		return false
+	}
+	return atomic.LoadInt32(&n.workerPool.running) == 1
+}
+
+// VerifLTSConnCounts returns connCount and len(activeConns) under connMutex.
+func (s *Server) VerifLTSConnCounts() (count, tracked int) {
+	s.connMutex.Lock()
+	defer s.connMutex.Unlock()
+	return s.connCount, len(s.activeConns)
+}
